@@ -36,6 +36,10 @@ func (v *DeliverScopeVariables) Get(s context.Scope, name string) (value.Value, 
 
 	switch name {
 	case BEREQ_BODY_BYTES_WRITTEN:
+		// Backend request is not created when the object is delivered from the cache
+		if bereq == nil {
+			return &value.Integer{Value: 0}, nil
+		}
 		var buf bytes.Buffer
 		if _, err := buf.ReadFrom(bereq.Body); err != nil {
 			return value.Null, errors.WithStack(err)
@@ -50,6 +54,9 @@ func (v *DeliverScopeVariables) Get(s context.Scope, name string) (value.Value, 
 		return &value.Integer{Value: 0}, nil
 
 	case BEREQ_HEADER_BYTES_WRITTEN:
+		if bereq == nil {
+			return &value.Integer{Value: 0}, nil
+		}
 		var headerBytes int64
 		// FIXME: Do we need to include total byte header LF bytes?
 		for k, v := range bereq.Header {
